@@ -3,6 +3,7 @@
    calendar algorithms, transcribed); Model/DayTime.v (binary64, hand-written). *)
 From Coq Require Import ZArith List.
 From PV Require Import Lib.Py Lib.PyDate Proofs.C17Cal Proofs.C17Base Proofs.C17 Model.DayTime.
+From PV Require Import Proofs.C17Carry.
 From PV Require Proofs.C17Sweep.All.
 From PV Require Gen.date_time.
 Import ListNotations.
@@ -61,3 +62,24 @@ Print Assumptions C17_month_carry.
 Theorem C17_time : forall s, 0 <= s < 86400 -> pack (hms s) = s.
 Proof. exact daytime. Qed.
 Print Assumptions C17_time.
+
+(* DAY CARRY (d >= 1; for d <= 0 the model refutes it: Refuted/C17_day_borrow.v).
+   For ANY integer month m whose normalised month (nyear y m, nmonth m) =
+   (y + (m-1) div 12, (m-1) mod 12 + 1) is 1900-03 or later, and any day
+   1 <= d <= 25000 (normalize_year recurses once per month carried; the model's
+   recursion budget is 900 calls), DATE(y, m, d) = DATE(y, m, 1) + d - 1 whenever
+   that is a serial number of the calendar. *)
+Theorem C17_day_carry : forall y m d, 1900 <= y <= 9999 ->
+  1900 <= nyear y m -> (nyear y m = 1900 -> 3 <= nmonth m) ->
+  1 <= d <= 25000 -> ymd2ord (nyear y m) (nmonth m) 1 - 693594 + d - 1 <= 2958465 ->
+  exists n1, 60 < n1
+    /\ date_time.f_date (VInt y) (VInt m) (VInt 1) = Ok (VInt n1)
+    /\ date_time.f_date (VInt y) (VInt m) (VInt d) = Ok (VInt (n1 + d - 1)).
+Proof. exact day_carry. Qed.
+Print Assumptions C17_day_carry.
+
+(* the calendar model: ord2ymd inverts ymd2ord on every valid date of the Excel range *)
+Theorem C17_ord2ymd_inverse : forall y m d, 1 <= m <= 12 -> 1 <= d <= days_in_month y m ->
+  61 <= ymd2ord y m d - 693594 <= 2958465 -> ord2ymd (ymd2ord y m d) = (y, m, d).
+Proof. exact ord2ymd_inv. Qed.
+Print Assumptions C17_ord2ymd_inverse.
